@@ -59,13 +59,16 @@ def edge_condition(fn, src, dst):
 
 class Facts:
     """facts that hold at a block: list of (pred, lhs_canon, rhs_canon, width) all TRUE"""
-    def __init__(self, prog, fn, block, canon=None):
+    def __init__(self, prog, fn, block, canon=None, extra_edge=None):
         self.prog, self.fn = prog, fn
         self.C = canon or Canon(prog, fn)
         self.facts = []
         self.raw = []
         for src, dst in dominating_edges(fn, block):
             for cond, truth in edge_condition(fn, src, dst):
+                self._add(cond, truth)
+        if extra_edge is not None:
+            for cond, truth in edge_condition(fn, *extra_edge):
                 self._add(cond, truth)
 
     def _add(self, cond, truth):
@@ -167,3 +170,25 @@ class Facts:
 
     def mentions(self, e):
         return [(p, a, b) for p, a, b in self.facts if e in (a, b)]
+
+
+def lower_bound_at(prog, fn, v, block, edge=None, depth=0):
+    """largest c such that v >= c is implied where `block` is entered (optionally through CFG edge `edge`);
+    a phi is bounded through each of its incoming edges"""
+    F = Facts(prog, fn, block, extra_edge=edge)
+    lo = F.lower_bound(F.norm(v))
+    if lo is not None:
+        return lo
+    if INT.match(v):
+        return int(v)
+    d = fn.defs.get(strip_int_casts(fn, v))
+    if d is not None and d.op == 'phi' and depth < 4:
+        los = []
+        for val, lab in d.incoming:
+            pb = fn.blocks[lab]
+            l2 = lower_bound_at(prog, fn, val, pb, (pb, d.bb), depth + 1)
+            if l2 is None:
+                return None
+            los.append(l2)
+        return min(los) if los else None
+    return None
